@@ -517,6 +517,7 @@ where for<'x> &'x R: RingOps<R> {
             }
             25 => {
                 req.push_str(" lt"); s.count("q.lead_term");
+                if st.is_zero() { s.count("q.lead_term.zero"); }
                 let (x, c) = st.lead_term();
                 let want = rf.iter().max_by(|a, b| ref_grlex(a.0, b.0));
                 let ok = match want {
@@ -548,6 +549,24 @@ where for<'x> &'x R: RingOps<R> {
                 s.oracle(st.is_one() == one, clause_q, &req, "is_one");
                 replies.push(st.is_const().to_string()); replies.push(st.is_one().to_string());
                 replies.push(st.const_term().txt()); replies.push(st.is_mono().to_string()); }
+            29 => {
+                // `pow(n)`: repeated `*=` starting from `one()`
+                let n = r.below(4) as usize;
+                if st.nterms().pow(n as u32) > 300 || mag_of(&st).pow(n as u32) > 1_000_000 || maxexp_of(&st) * (n as i64) > 40 { continue; }
+                use num_traits::Pow;
+                let new = (&st).pow(n);
+                let mut want: RefP<R> = BTreeMap::new();
+                want.insert(vec![], R::one());
+                let want0 = ref_norm(want);
+                let want = (0..n).fold(want0, |acc, _| ref_mul(&acc, &rf));
+                req.push_str(&format!(" pow={}", n));
+                s.count("op.pow");
+                st = new;
+                s.oracle(ref_of(&st) == want, clause_op, &req, &format!("state {}", terms_txt(&st)));
+                rf = want;
+                changed += 1;
+                replies.push(terms_txt(&st));
+            }
             _ => {
                 // eval (only `i64` coefficients and `usize` exponents have `Pow`)
                 if X::NVARS == 0 || X::LAURENT || R::TAG != "z" { continue; }
@@ -863,7 +882,7 @@ fn hp_history<R: RK + Copy>(s: &mut Sink, r: &mut Rng, nops: usize) where for<'x
     for _ in 0..nops {
         if st.coeff().mag() > 1_000_000 { break; }
         let form = r.below(4);
-        let (p, t) = if r.chance(1, 3) { (HPoly::new(st.deg(), R::gen(r)), String::new()) } else { hp_gen::<R>(r) };
+        let (p, t) = if r.chance(3, 4) { (HPoly::new(st.deg(), R::gen(r)), String::new()) } else { hp_gen::<R>(r) };
         let t = if t.is_empty() { format!("{}:{}", p.deg(), p.coeff().txt()) } else { t };
         let k = r.below(11);
         let res: Option<HPoly<'x', R>> = match k {
@@ -968,6 +987,22 @@ fn corpus(s: &mut Sink) {
         s.case("mono pn sub 1 1^0", &sub(d(&[]), d(&[(1, 0)])), true);
         s.case("mono pn sub 1 1^1", &sub(d(&[]), d(&[(1, 1)])), true);
     }
+    // `variable`, `one`, `zero`, `from_const` constructors
+    {
+        type P2 = PolyBase<Var2<'x', 'y', usize>, i64>;
+        type Q3 = PolyBase<Var3<'x', 'y', 'z', isize>, i64>;
+        s.case("hist p1 z 1:1", &terms_txt(&P::variable()), true);
+        s.case("hist p2 z 1.0:1", &terms_txt(&P2::variable(0)), true);
+        s.case("hist p2 z 0.1:1", &terms_txt(&P2::variable(1)), true);
+        s.case("hist l3 z 0.0.1:1", &terms_txt(&Q3::variable(2)), true);
+        s.case("hist pn z 2^1:1", &terms_txt(&PN::variable(2)), true);
+        s.case("hist ln z 0^1:1", &terms_txt(&LN::variable(0)), true);
+        s.case("hist pn z 1:1", &terms_txt(&PN::one()), true);
+        s.case("hist pn z 0", &terms_txt(&PN::zero()), true);
+        s.case("hist pn z 1:0", &terms_txt(&PN::from_const(0)), true);
+        s.case("hist p1 f3 0:3", &terms_txt(&P3::from_const(FF::<3>::new(3))), true);
+        s.oracle(PN::from_const(0).is_zero() && PN::from_const(0) == PN::zero() && P2::variable(1).nterms() == 1, "a value never stores a zero coefficient or zero exponent (after any sequence of operations)", "from_const(0)", "");
+    }
     s.case("garbage", "bad-request", false);
     s.case("hist p1 z 1:x", "bad-request", false);
     s.count("corpus");
@@ -1003,7 +1038,7 @@ fn main() {
     let mut r = Rng::new(args.seed);
     corpus(&mut s);
     let th = args.thorough();
-    let (nh, nops, mt, nax) = if th { (220, 20, 24, 160) } else { (30, 14, 24, 24) };
+    let (nh, nops, mt, nax) = if th { (3000, 20, 24, 1500) } else { (300, 14, 24, 150) };
     run_type::<Var<'x', usize>>(&mut s, &mut r, nh, nops, mt, nax);
     run_type::<Var<'x', isize>>(&mut s, &mut r, nh, nops, mt, nax);
     run_type::<Var2<'x', 'y', usize>>(&mut s, &mut r, nh, nops, mt, nax);
@@ -1021,7 +1056,7 @@ fn main() {
         guarded_case(&mut s, "hp", |s| hp_history::<Ratio<i64>>(s, &mut r, nops));
         guarded_case(&mut s, "hp", |s| hp_history::<FF<3>>(s, &mut r, nops));
     }
-    guarded_case(&mut s, "mdeg", |s| mdeg_cases(s, &mut r, if th { 4000 } else { 400 }));
+    guarded_case(&mut s, "mdeg", |s| mdeg_cases(s, &mut r, if th { 30000 } else { 3000 }));
 
     // exhaustive small spaces
     {
